@@ -20,9 +20,11 @@ CLAIMED = {
         design="§6 C05"),
 }
 import glob
+READY = open(os.path.join(V, "harness", "props", "READY")).read().split()   # properties whose checks are integrated
 for f in sorted(glob.glob(os.path.join(V, "harness", "props", "*.manifest.json"))):
     frag = json.load(open(f))
     CLAIMED[os.path.basename(f).split(".")[0].upper()] = frag
+CLAIMED = {k: v for k, v in CLAIMED.items() if k in READY}
 PENDING = "check not built yet in this revision of /verif (work in progress; see DESIGN.md §12)"
 checks = []
 for p in ALL:
